@@ -4,7 +4,7 @@ import ast
 from .handlers import run_path_rules
 from .entries import make_interp, run_state_method, axis_logical
 from .pathfacts import Facts, live_alts, classify, template_letters, S_OID
-from .values import NONE, Num, Str, SStr, Cat, Obj, TupleV, Star, Choice
+from .values import NONE, Num, Str, SStr, Cat, Obj, TupleV, Star, Choice, vkey
 from .absint import Raised
 from .poly import Poly
 from . import census
@@ -175,6 +175,12 @@ def mode_rule(ctx, I):
 def path_rules(col, gcode, paths, I):
     """R2 on the handler level: entering paths, and the snapshot stays untouched while the episode is open"""
     declare(col)
+    if gcode in ('G0', 'G1'):
+        # the X/Y/Z words of the exit travel must reach the firmware as the numbers they stand for (C07.R1/R2)
+        from . import rules_c07
+        col.rule('C07.R1', 'C07: every synthesised command is one G/M code followed by distinct single-letter words', floor=4)
+        col.rule('C07.R2', 'C07: every numeric word of the exit commands is rendered by an exponent-free formatter', floor=8)
+        rules_c07.path_rules(col, gcode, paths, I, own=False)
     for p in paths:
         f = Facts(p, I)
         if not f.raised:
@@ -223,6 +229,24 @@ def path_rules(col, gcode, paths, I):
                 col.report('C03.R2', 'ExcludeRegionState.enterExcludedRegion', 'lastPosition not recorded',
                            'an episode is opened without remembering the position (%r)' % (o,))
                 continue
+            # the snapshot is a copy of the live axes at entry: same unit factor, offsets and mode (it is read at exit to order
+            # the Z move, in the frame of the live axis)
+            for axn in ('X_AXIS', 'Y_AXIS', 'Z_AXIS', 'E_AXIS'):
+                for sa in live_alts(p.st, p.st.heap.get((o.oid, axn))):
+                    if not isinstance(sa, Obj):
+                        continue
+                    live = '%s.%s' % (POS, axn)
+                    for fld in ('unitMultiplier', 'offset', 'homeOffset'):
+                        got = [vkey(x) for x in live_alts(p.st, p.st.heap.get((sa.oid, fld)))]
+                        want = [vkey(x) for x in live_alts(p.st, p.st.heap.get((live, fld)))]
+                        if got != want:
+                            col.report('C03.R2', 'ExcludeRegionState.enterExcludedRegion',
+                                       'remembered %s.%s is not the live axis\'s' % (axn, fld),
+                                       'the position remembered at entry carries %s = %s while the live axis has %s: an object '
+                                       'left over from an earlier episode is re-used, so after a change of units / offsets '
+                                       'between two episodes the Z comparison at exit mixes frames' % (fld, got[:1], want[:1]),
+                                       detail={'entry': p.entry, 'decisions': f.decisions()[-6:]})
+                            break
             for z in live_alts(p.st, p.st.heap.get((o.oid, 'Z_AXIS'))):
                 if not isinstance(z, Obj):
                     continue
